@@ -58,9 +58,11 @@ def run_case(case):
             inner.step = icounted
             if case.get('sched') and case['acc'] != 'gdp':
                 scheds.append(ExponentialNoise(o, gamma=0.9))
+        n_logical = 0
         for ep in range(case['epochs']):
             for (m, o, c, d, Lorig) in sets:
                 q = 1.0 / len(d)
+                n_logical += len(d)
                 ctxm = BatchMemoryManager(data_loader=d, max_physical_batch_size=case['bmm'], optimizer=o) if case['bmm'] else None
                 loader = ctxm.__enter__() if ctxm else d
                 for xb, yb in loader:
@@ -84,6 +86,7 @@ def run_case(case):
                                 out['bad_rate'] = 'recorded rate %r, engine sample rate %r' % (new[0][2], q)
             for s in scheds:
                 s.step()
+        out['n_logical'] = n_logical
         out['n_inner'] = sum(1 for e in log if e[0] == 'I')
         out['n_records'] = sum(h[2] for h in acc.history)
     except Exception as e:
